@@ -241,6 +241,9 @@ pub struct Monitors {
     pub requests_this_turn: u8,
     pub first_req_this_turn: Option<Vec<u8>>,
     pub cycles_completed: u64,
+    /// the user reset the peripheral (reset_address) while its request was outstanding: the reply that
+    /// arrives belongs to a request of the peripheral's previous life — it may be ignored
+    pub stale_outstanding: bool,
 }
 
 pub struct Exec {
@@ -563,9 +566,18 @@ impl Exec {
             }
             Act::ResetAddr(i) => {
                 let addr = self.cfg.rig.periphs[i as usize].addr;
+                let images_before = self.images();
                 let rig = &mut self.rig;
                 if let Err(pn) = catch(|| rig.periph(i as usize).reset_address(addr)) {
                     self.panic_seen("Peripheral::reset_address", pn);
+                    return;
+                }
+                if matches!(&self.outstanding, Some((k, _)) if *k == i as usize) {
+                    self.mon.stale_outstanding = true;
+                }
+                let images_after = self.images();
+                if self.cfg.mon == Mon::C04 && images_after != images_before {
+                    self.violation("c04.image_changed_by_reset_address", format!("reset_address() changed a process image: before {:?}, after {:?}", images_before, images_after));
                 }
                 return;
             }
@@ -645,6 +657,8 @@ impl Exec {
             }
             _ => unreachable!(),
         }
+        // whatever happened to the outstanding request, it is resolved now
+        self.mon.stale_outstanding = false;
         if !self.dead {
             self.advance();
         }
@@ -902,6 +916,13 @@ impl Exec {
                 return;
             }
         }
+        if std::mem::take(&mut self.mon.stale_outstanding) {
+            // only the "changes only when" direction is judged for a reply to a request from before the reset
+            if ia[i].0 != ib[i].0 && good_payload.as_ref() != Some(&ia[i].0) {
+                self.violation("c04.input_image_changed_without_good_reply", "pi_i changed on a reply that is not a well-formed Data_Exchange reply".into());
+            }
+            return;
+        }
         match (&good_payload, good_sc) {
             (Some(p), _) => {
                 if ia[i].0 != *p {
@@ -1153,6 +1174,7 @@ impl Exec {
             None => b.push(0xFE),
         }
         b.push(self.idle as u8);
+        b.push(self.mon.stale_outstanding as u8);
         b.push(self.dead as u8);
         b.push(self.rig.handles.len() as u8);
         if self.cfg.dev_budget != 255 {
